@@ -596,6 +596,7 @@ def parse_tool(repo, name, rel):
             if s.v[j] == "opt_parms": raise Problem("%s: opt_parms outside an option block" % rel)
             j += 1
         i = e + 1
+    tool["conv"] = parse_conversion(s, tool, lo, hi, rel)
     # cross-checks: every textual occurrence was accounted for
     n_opt = sum(1 for j in range(lo, hi - 2) if s.v[j:j + 3] == ["cmd", ".", "option"])
     if n_opt != recognised_option_calls:
@@ -607,6 +608,68 @@ def parse_tool(repo, name, rel):
     if tool["argv_uses"] and tool["has_blocks"]:
         raise Problem("%s: both positional argv[k] and option blocks" % rel)
     return tool
+
+def parse_conversion(s, tool, lo, hi, rel):
+    """matrix_convert: which option variables feed the input / output format of the conversion (template `conversion`)"""
+    cf = None
+    for i in range(len(s.v) - 1):
+        if s.v[i] == "conversion" and s.k[i] == "id" and s.v[i + 1] == "(" and s.v[s.match[i + 1] + 1] == "{":
+            cf = (i + 1, s.match[i + 1], s.match[i + 1] + 1, s.match[s.match[i + 1] + 1]); break
+    if cf is None: return None
+    p0, p1, b0, b1 = cf
+    params = []; cur = []
+    for j in range(p0 + 1, p1 + 1):
+        if j == p1 or s.v[j] == ",":
+            ids = [x for x, k in zip(cur, [s.k[q] for q in range(j - len(cur), j)]) if k == "id"]
+            params.append(ids[-1]); cur = []
+        else: cur.append(s.v[j])
+    body = s.v[b0:b1]
+    def after(seq):
+        res = []
+        for j in range(b0, b1 - len(seq)):
+            if s.v[j:j + len(seq)] == seq:
+                e = s.match[j + len(seq) - 1]; res.append(s.v[j + len(seq):e])
+        return res
+    ins = after(["ifs", ">>", "maths", "::", "format", "("]); outs = after(["ofs", "<<", "maths", "::", "format", "("])
+    if len(ins) != 1 or len(ins[0]) != 1: raise Problem("%s: conversion(): input format selection not recognised" % rel)
+    named = [o for o in outs if len(o) == 1]; suff = [o for o in outs if len(o) > 1 and o[-1] == "FromSuffix"]
+    if len(named) != 1 or len(suff) != 1: raise Problem("%s: conversion(): output format selection not recognised" % rel)
+    in_p, out_p, suf_p = ins[0][0], named[0][0], suff[0][0]
+    # guards: if (P!="") ... else ...
+    for P in (in_p, out_p):
+        if s.find_seq(["if", "(", P, "!=", '""', ")"], b0, b1) < 0: raise Problem("%s: conversion(): `%s` is not tested against the empty string" % (rel, P))
+    calls = []
+    for j in range(lo, hi):
+        if s.v[j] == "conversion" and s.v[j + 1] == "<":
+            q = j + 1
+            while s.v[q] != "(": q += 1
+            args = [x for x in s.v[q + 1:s.match[q]] if x != ","]
+            calls.append(args)
+    if not calls or any(c != calls[0] for c in calls) or len(calls[0]) != len(params):
+        raise Problem("%s: the calls of conversion() differ or do not match its parameters" % rel)
+    m = dict(zip(params, calls[0]))
+    files = {}
+    for strm in ("ifs", "ofs"):
+        q = s.find_seq(["maths", "::", strm[0] + "fstream", strm, "("], lo, hi)
+        if q < 0 or s.v[q + 6:q + 10] != [".", "c_str", "(", ")"]: raise Problem("%s: stream %s not built from an option" % (rel, strm))
+        files[strm] = s.v[q + 5]
+    dv = {d["var"] for d in tool["decls"]}
+    res = dict(in_file=files["ifs"], out_file=files["ofs"], in_fmt=m[in_p], out_fmt=m[out_p], suffix=m[suf_p])
+    for k, v in res.items():
+        if v not in dv: raise Problem("%s: conversion(): `%s` (%s) is not an option variable" % (rel, v, k))
+    return res
+
+def suffix_formats(repo):
+    """(suffix, format name) pairs of the maths IO classes"""
+    res = []
+    for X in ("AsciiIO", "TrivialBinIO", "MatlabIO", "BrainVisaTextureIO"):
+        try:
+            c = open(os.path.join(repo, "OpenMEEGMaths", "src", X + ".C")).read(); h = open(os.path.join(repo, "OpenMEEGMaths", "include", X + ".H")).read()
+        except OSError: continue
+        m = re.search(X + r'::Identity\("(\w+)"\)', c)
+        if not m: continue
+        for sfx in re.findall(r'push_back\("(\w+)"\)', h): res.append((sfx, m.group(1)))
+    return res
 
 DOC_RULES = [   # (regex on the lower-cased documented line, role, kind) -- first match wins
     (r"^\[optional (parameter|filename)", "opt", "any"),
@@ -713,9 +776,13 @@ def emit(tools):
                 clist(["(%s, %s)" % (PK[d["kind"]], "true" if d["optional"] else "false") for d in (b.get("doc") or [])]), clist(us)))
         o.append("  t_blocks := [" + ";\n    ".join(bl) + "];")
         o.append("  t_unknown_exit := %s;" % ("None" if t["unknown_exit"] is None else "Some " + cz(t["unknown_exit"])))
-        o.append("  t_documented := %s |}." % clist([cstr(a) for grp in t["documented"] for a in grp]))
+        o.append("  t_documented := %s;" % clist([cstr(a) for grp in t["documented"] for a in grp]))
+        cv = t.get("conv")
+        o.append("  t_conv := %s |}." % ("None" if not cv else "Some {| cv_in_file := %s; cv_out_file := %s; cv_in_fmt := %s; cv_out_fmt := %s; cv_suffix := %s |}" % tuple(cstr(cv[k]) for k in ("in_file", "out_file", "in_fmt", "out_fmt", "suffix"))))
         o.append("")
     o.append("Definition gen_tools : list tool := %s." % clist(names))
+    o.append("(* file suffix -> format name, from the maths IO classes *)")
+    o.append("Definition gen_suffix_formats : list (tok * tok) := %s." % clist(["(%s, %s)" % (cstr(a), cstr(b)) for a, b in SUFFIX_FORMATS]))
     head = ["(* GENERATED by translators/t_cli.py from the command-line tools of the working tree -- do not edit. *)",
             "From Coq Require Import List ZArith.", "From OM Require Import Geom.Cli.", "Import ListNotations.",
             "Local Open Scope Z_scope.", "", "(* C strings of the sources as byte lists *)"]
@@ -726,10 +793,14 @@ def emit(tools):
     head.append("")
     return "\n".join(head + o) + "\n"
 
+SUFFIX_FORMATS = []
+
 def generate(repo_root, out_dir):
     sys.path.insert(0, os.path.join(os.path.dirname(os.path.dirname(os.path.abspath(__file__))), "lib"))
     import gencoq
     tools, problems = parse_all(repo_root)
+    SUFFIX_FORMATS[:] = suffix_formats(repo_root)
+    if not SUFFIX_FORMATS: problems.append("no suffix/format table found in the maths IO classes")
     try:
         txt = emit(tools)
     except Problem as e:
